@@ -47,6 +47,7 @@ type c07Call struct {
 	val, fresh, err       string
 	runs                  int32
 	done, stuck, free, ok bool
+	panicked              bool
 }
 
 func c07Parse(text string) (*c07Call, bool) {
@@ -171,33 +172,42 @@ func c07RunSection(cfg verifh.Cfg, ops []string) []string {
 					fresh = "-"
 				)
 				inv := stamp.Add(1)
-				switch mode {
-				case "sf":
-					if c.ex {
-						var f bool
-						v, f, err = sf.DoEx(fmt.Sprint(c.key), fn)
-						fresh = "0"
-						if f {
-							fresh = "1"
+				func() {
+					defer func() {
+						if p := recover(); p != nil {
+							mu.Lock()
+							c.panicked = true
+							mu.Unlock()
 						}
-					} else {
-						v, err = sf.Do(fmt.Sprint(c.key), fn)
-					}
-				case "lc":
-					v, err = lc.Do(fmt.Sprint(c.key), fn)
-				default:
-					var r io.Closer
-					r, err = rm.GetResource(fmt.Sprint(c.key), func() (io.Closer, error) {
-						x, e := fn()
-						if e != nil {
-							return nil, e
+					}()
+					switch mode {
+					case "sf":
+						if c.ex {
+							var f bool
+							v, f, err = sf.DoEx(fmt.Sprint(c.key), fn)
+							fresh = "0"
+							if f {
+								fresh = "1"
+							}
+						} else {
+							v, err = sf.Do(fmt.Sprint(c.key), fn)
 						}
-						return x.(io.Closer), nil
-					})
-					if r != nil {
-						v = r
+					case "lc":
+						v, err = lc.Do(fmt.Sprint(c.key), fn)
+					default:
+						var r io.Closer
+						r, err = rm.GetResource(fmt.Sprint(c.key), func() (io.Closer, error) {
+							x, e := fn()
+							if e != nil {
+								return nil, e
+							}
+							return x.(io.Closer), nil
+						})
+						if r != nil {
+							v = r
+						}
 					}
-				}
+				}()
 				ret := stamp.Add(1)
 				mu.Lock()
 				c.inv, c.ret, c.fresh, c.done = inv, ret, fresh, true
@@ -269,6 +279,9 @@ func c07RunSection(cfg verifh.Cfg, ops []string) []string {
 		}
 		out[idx[c]] = fmt.Sprintf("inv=%d ret=%d val=%s fresh=%s err=%s fs=%s fe=%s runs=%d stuck=%d",
 			c.inv, c.ret, c.val, c.fresh, c.err, dash(c.fs), dash(c.fe), c.runs, st)
+		if c.panicked {
+			out[idx[c]] += " panic=1"
+		}
 	}
 	_ = allOk
 	return out
